@@ -154,6 +154,8 @@ type Exec struct {
 	harnessPkg *ssa.Package
 	inconclusive []string
 	assertsTotal int
+	intOrigin map[*Term]*Term
+	bigs map[*Value]*Term
 	lastRun *Thread
 	usedUF bool
 	viper map[string]IfaceV
